@@ -471,7 +471,10 @@ func (c *conn) Flush() error {
 	}
 	// In LT mode, whatever the kernel did not take right now will only be sent upon a writable event.
 	if c.opened && !c.outboundBuffer.IsEmpty() && !c.loop.engine.opts.EdgeTriggeredIO {
-		return c.loop.poller.ModReadWrite(&c.pollAttachment, false)
+		if err := c.loop.poller.ModReadWrite(&c.pollAttachment, false); err != nil {
+			_ = c.loop.close(c, err)
+			return err
+		}
 	}
 	return nil
 }
